@@ -17,7 +17,9 @@ from ..sites import strip_ref, own_inlinable
 TEXT_TYPES = ('str', '[u8]', 'std::string::String', 'std::vec::Vec<u8, std::alloc::Global>', 'std::vec::Vec<u8>')
 IN_EXTRA = ('string::String::from_utf8', 'str::from_utf8', 'std::str::from_utf8', 'core::str::from_utf8', 'convert::Into<U>>::into', 'convert::From<T>>::from',
             'TryInto<U>>::try_into')
-PRIM_EQ_RE = re.compile(r"^<(str|\[u8\]|\[u8; N(/#\d+)?\]) as std::cmp::PartialEq<(str|\[u8\]|\[u8; N(/#\d+)?\])>>::eq$")
+_TXT = r"(&'?\w* ?)?(str|\[u8\]|\[u8; N(/#\d+)?\]|std::string::String|std::vec::Vec<u8(, [^>]*)?>|std::vec::Vec<[TU](, A\d?)?>)"
+# the std comparisons between plain text types (str, String, [u8], [u8; N], Vec<u8>): all byte-wise equality of the two texts
+PRIM_EQ_RE = re.compile(r"^<" + _TXT + r" as std::cmp::PartialEq(<" + _TXT + r">)?>::eq$")
 PRIM_EQ = ('<impl std::cmp::PartialEq for str>::eq', 'impl std::cmp::PartialEq<[U]> for [T]>::eq', 'impl std::cmp::PartialEq<[B]> for [A]>::eq',
            'PartialEq<[U; N]> for [T]>::eq', 'PartialEq<[U; N]> for [T; N]>::eq', 'array::equality',
            )
